@@ -57,7 +57,19 @@ def _strategy(draw):
     if kind == "cycle":
         spec = draw(gc.system(max_moltypes=2, max_res=12, min_res=4, shapes=("ring",), max_total_mol=3,
                               allow_vs=False))
-    elif kind in ("dist", "persist", "cone"):
+    elif kind == "persist":
+        # also branched molecules: the contour runs along the residues between the two ends, side residues do not count
+        spec = draw(gc.system(max_moltypes=2, max_res=10, min_res=4, shapes=("linear", "linear", "branched"), max_total_mol=3,
+                              allow_vs=False))
+        import networkx as _nx
+        for _mt in spec["moltypes"]:
+            # a persistence length needs a few steps to be sampled over: compact branched shapes (no residue three
+            # steps away from residue 0) are laid out as chains instead
+            _d = _nx.single_source_shortest_path_length(_nx.Graph([tuple(e) for e in _mt["res_edges"]]), 0)
+            if max(_d.values()) < 3:
+                _mt["res_edges"] = [[i, i + 1] for i in range(len(_mt["residues"]) - 1)]
+                _mt["shape"] = "linear"
+    elif kind in ("dist", "cone"):
         spec = draw(gc.system(max_moltypes=2, max_res=10, min_res=4, shapes=("linear",), max_total_mol=3,
                               allow_vs=False))
     elif kind == "dist2":
@@ -189,19 +201,27 @@ def _strategy(draw):
                                "dist": r["dist"], "tol": r["tol"]})
     elif kind == "persist":
         lp = draw(st.sampled_from([0.5, 1.0, 2.0]))
+        # the far end: the last residue, or - in a branched molecule where that one is closer than three steps to
+        # residue 0 - the residue farthest from residue 0 (a persistence length needs a few steps to be sampled over)
+        import networkx as _nx
+        _g = _nx.Graph([tuple(e) for e in mt["res_edges"]])
+        _d = _nx.single_source_shortest_path_length(_g, 0)
+        pend = nres - 1
+        if _d[pend] < 3:
+            pend = max(sorted(_d), key=lambda n: (_d[n], n))
         if hi - lo >= 2 and draw(st.booleans()):
             # two batches for molecules of the same name: two [ molecule ] blocks with their own index ranges and
             # persistence lengths
             mid = draw(st.integers(lo + 1, hi - 1))
             lp2 = draw(st.sampled_from([x for x in [0.5, 1.0, 2.0, 4.0] if x != lp]))
-            build += ["[ molecule ]", f"{name} {lo} {mid}", "[ persistence_length ]", f"WCM {lp!r} 0 {nres - 1}",
-                      "[ molecule ]", f"{name} {mid} {hi}", "[ persistence_length ]", f"WCM {lp2!r} 0 {nres - 1}"]
-            restraints.append({"kind": "persist", "mol": name, "lo": lo, "hi": mid, "a": 0, "b": nres - 1, "lp": lp, "batch": 0})
-            restraints.append({"kind": "persist", "mol": name, "lo": mid, "hi": hi, "a": 0, "b": nres - 1, "lp": lp2, "batch": 1})
+            build += ["[ molecule ]", f"{name} {lo} {mid}", "[ persistence_length ]", f"WCM {lp!r} 0 {pend}",
+                      "[ molecule ]", f"{name} {mid} {hi}", "[ persistence_length ]", f"WCM {lp2!r} 0 {pend}"]
+            restraints.append({"kind": "persist", "mol": name, "lo": lo, "hi": mid, "a": 0, "b": pend, "lp": lp, "batch": 0})
+            restraints.append({"kind": "persist", "mol": name, "lo": mid, "hi": hi, "a": 0, "b": pend, "lp": lp2, "batch": 1})
         else:
             build += ["[ molecule ]", f"{name} {lo} {hi}"]
-            build += ["[ persistence_length ]", f"WCM {lp!r} 0 {nres - 1}"]
-            restraints.append({"kind": "persist", "mol": name, "lo": lo, "hi": hi, "a": 0, "b": nres - 1, "lp": lp})
+            build += ["[ persistence_length ]", f"WCM {lp!r} 0 {pend}"]
+            restraints.append({"kind": "persist", "mol": name, "lo": lo, "hi": hi, "a": 0, "b": pend, "lp": lp})
         if draw(st.booleans()):
             # a box with one short edge (shorter than some of the sampled end-to-end distances)
             opts["box"] = [round(max(2.6, 0.3 * edge), 1), round(edge + 2.0, 1), round(edge + 2.0, 1)]
@@ -281,6 +301,16 @@ def check(spec, ctx):
         res = gc.run_gen_coords(spec, ctx, timeout=8)
     finally:
         pers.generate_end_end_distances = orig_gen
+        # whatever became of the build: the number of steps a contour length was computed over is the number of
+        # residue-graph edges between the two ends (judged from the input alone)
+        for r in spec["restraints"]:
+            if r["kind"] == "persist" and len(captured) > r.get("batch", 0):
+                _s, avg_step, contour = captured[r.get("batch", 0)]
+                mt = [m for m in spec["moltypes"] if m["name"] == r["mol"]][0]
+                want = nx.shortest_path_length(nx.Graph([tuple(e) for e in mt["res_edges"]]), r["a"], r["b"])
+                if avg_step > 0 and round(contour / avg_step) != want:
+                    raise Violation("persistence:contour_steps", f"contour length {contour:.4f} nm over steps of {avg_step:.4f} nm: "
+                                                                 f"{round(contour / avg_step)} steps, but residues {r['a']} and {r['b']} are {want} apart")
     if res.exc is not None:
         if isinstance(res.exc, (IOError, OSError)):
             raise Reject(str(res.exc)[:200])
@@ -365,6 +395,14 @@ def check(spec, ctx):
                     if "batch" in r:
                         ctx.label("two_persistence_batches_one_name")
                     samples, avg_step, contour = captured[bidx]
+                    # the contour length is that of the residues between the two ends: one step (mean of the two
+                    # sizes) per edge of the path that joins them
+                    npath = len(nx.shortest_path(topo.molecules[mi], r["a"], r["b"])) - 1
+                    if abs(contour - path_avg * npath) > 1e-6 * max(1.0, contour):
+                        raise Violation("persistence:contour_length", f"end-to-end distances sampled for a contour of {contour:.4f} nm; "
+                                                                      f"the {npath} steps between residues {r['a']} and {r['b']} span {path_avg * npath:.4f} nm")
+                    if npath < len(topo.molecules[mi].nodes) - 1:
+                        ctx.label("persistence_on_branched_molecule")
                     for s in samples:
                         if s < avg_step - 1e-9 or s > contour + 1e-9:
                             raise Violation("persistence:sample_out_of_range", f"sampled end-to-end distance {s} outside [{avg_step}, {contour}]")
